@@ -138,12 +138,22 @@ func init() {
 			rec(Doc{}, 0)
 			for i := 0; i < nr; i++ {
 				o := GenOpt{MaxLen: maxLen, RestP: 0.3, KeyP: 0.05, SettingP: 0.05, Fractions: true, MultiVals: true, MaxDeg: 7, BassP: 0.2,
-					Syms: []string{"", "m", "7", "maj7", "sus4"}}
-				cases = append(cases, Case{"doc": randomDoc(rng, o), "flags": Flags{}})
+					Syms: []string{"", "m", "7", "maj7", "sus4"}, BigVals: i%5 == 0}
+				cs := Case{"doc": randomDoc(rng, o), "flags": Flags{}}
+				if i%4 == 3 { // the same timing law on several tracks (checked through the merged events)
+					cs["tracks"] = []int{2, 3, 5, 9}[(i/4)%4]
+				}
+				cases = append(cases, cs)
 			}
 			return cases
 		},
-		Exec: writeExec(false),
+		Exec: func(c *Ctx, k Case) []Rec {
+			tr := ci(k, "tracks")
+			if tr == 0 {
+				tr = 1
+			}
+			return []Rec{writeRec(c, caseToDoc(k["doc"]), caseToFlags(k["flags"]), tr, tr > 1)}
+		},
 	})
 
 	// ---------------------------------------------------------------- C06
@@ -165,7 +175,10 @@ func init() {
 			}
 			for i := 0; i < nd; i++ {
 				o := GenOpt{MaxLen: 14, RestP: 0.35, KeyP: 0.15, SettingP: 0.15, TextP: 0.2, Fractions: true, MultiVals: true, MaxDeg: 9, BassP: 0.3,
-					Syms: chordSymbols, Texts: sampleTexts}
+					Syms: chordSymbols, Texts: sampleTexts, BigVals: i%4 == 0}
+				if i%10 == 9 {
+					o.MaxLen = 150 // long pieces: tracks stay idle for a long time
+				}
 				docs = append(docs, randomDoc(rng, o))
 			}
 			cases := []Case{}
